@@ -34,6 +34,12 @@ def run(ctx: Ctx):
     duplicates(ctx)
     rendering_typestate(ctx)
     shape(ctx)
+    from .common import index_space_lints
+
+    index_space_lints(ctx, "index-space.positions", ['cubepart.py', 'collator.py', 'matrix/assembler.py', 'stripe/assembler.py'], words=None)
+    from .common import order_index_sign_tests
+
+    order_index_sign_tests(ctx, "order-index-sign")
 
 
 # --------------------------------------------------------------------------- 1
@@ -183,9 +189,60 @@ def coordinate_typing(ctx: Ctx):
                                 "a scalar statistic is computed from pre-assembly values (it must not change when elements are hidden, pruned or reordered)",
                                 "a full reduction of an assembled array drops hidden/pruned elements from the statistic",
                             )
+            # (c) elementwise arithmetic never mixes a DISPLAY-ordered array with a PAYLOAD-ordered dimension sequence
+            for node in ast.walk(body):
+                if isinstance(node, ast.BinOp) and isinstance(node.op, (ast.Mult, ast.Add, ast.Sub, ast.Div)):
+                    sl_, sr_ = _array_space(node.left, disp), _array_space(node.right, disp)
+                    key = ("mix", cname, name)
+                    if {sl_, sr_} == {"D", "P"} and key not in _SEEN:
+                        _SEEN.add(key)
+                        ctx.violated(
+                            "display-payload-arithmetic",
+                            f"{CP}::{cname}.{name}",
+                            f"{u(node.left)[:70]} [{sl_}]  {type(node.op).__name__}  {u(node.right)[:70]} [{sr_}]",
+                            "both operands in one index space (payload sequences are converted by X[display order])",
+                            "a payload-ordered dimension sequence is combined element by element with a display-ordered (assembled) array: correct only while the display order is the payload order",
+                        )
         ctx.count("payload-context call sites", n_sites)
     ctx.require_min("payload-context call sites", 80)
     ctx.require_min("display-typed properties", 100)
+
+
+def _array_space(e: ast.AST, disp: Set[str]) -> Optional[str]:
+    """'D' display-ordered (assembled / order-derived), 'P' payload-ordered dimension sequence, None scalar / unknown."""
+    if isinstance(e, ast.Attribute):
+        if isinstance(e.value, ast.Name) and e.value.id == "self":
+            return "D" if e.attr in disp else None
+        if e.attr == "T":
+            return _array_space(e.value, disp)
+        t = u(e)
+        if (t.startswith(("self._rows_dimension.", "self._columns_dimension.", "self._dimensions[")) or "_dimension." in t) and e.attr in PAYLOAD_SEQ_ATTRS:
+            return "P"
+        return None
+    if isinstance(e, ast.Subscript):
+        base = _array_space(e.value, disp)
+        idx_t = u(e.slice)
+        if base == "P":
+            # the sanctioned conversion payload -> display is a subscript BY the display order itself
+            if idx_t in (ROW_ORD, COL_ORD) or idx_t.replace(" ", "") in (f"({ROW_ORD},)", f"({COL_ORD},)"):
+                return "D"
+            return "P"
+        return base
+    if isinstance(e, ast.Call):
+        f = u(e.func)
+        if f in ("np.array", "np.asarray", "np.broadcast_to", "pow", "np.power", "np.abs", "abs", "np.sqrt", "np.nan_to_num") and e.args:
+            return _array_space(e.args[0], disp)
+        if isinstance(e.func, ast.Attribute) and e.func.attr in ("reshape", "astype", "copy", "flatten", "ravel") :
+            return _array_space(e.func.value, disp)
+        return None
+    if isinstance(e, ast.BinOp):
+        a, b = _array_space(e.left, disp), _array_space(e.right, disp)
+        if a and b and a != b:
+            return a  # the conflict is reported where it arises (inner node)
+        return a or b
+    if isinstance(e, ast.UnaryOp):
+        return _array_space(e.operand, disp)
+    return None
 
 
 def _only_as_order_lookup(call: ast.Call, read: str) -> bool:
@@ -316,13 +373,15 @@ def pairing(ctx: Ctx):
 PAYLOAD_SEQ_ATTRS = {"subtotals", "valid_elements", "element_ids", "element_labels", "element_aliases", "subtotal_labels", "subtotal_aliases", "insertion_ids", "numeric_values", "all_elements"}
 
 
-def index_space_zip(ctx: Ctx):
+def index_space_zip(ctx: Ctx, only=None):
     """A sequence of display positions (or a display-ordered sequence) may not be paired position-wise
     (zip) with a payload-ordered dimension sequence, nor subscript one."""
     n = 0
     for cname in ("_Slice", "_Strand"):
         ci = ctx.repo.cls(CP, cname)
         for name, m in sorted(ci.members.items()):
+            if only is not None and name not in only:
+                continue
             env: Dict[str, str] = {}
             # local assignments: name -> space
             for st in ast.walk(m.node):
